@@ -1,4 +1,5 @@
 import HgVerif.Model.SvcCtx
+import HgVerif.Lemmas.SvcCtx
 /-!
 C07, service transport contexts (`Model/SvcCtx.lean`): process-wide registries may only hold interned IMMUTABLE
 artifacts whose lookup depends on the key alone.  All theorems are general over every process state / every history
@@ -22,6 +23,12 @@ assignment of storage offsets; only the counter-lemma uses a concrete witness.
                                          `i`-th build of its case) without any process state.
 * `svc_history_prefix_irrelevant`      : the observations of a history do not depend on the history run before it.
 * `fresh_reference_reproduces`         : the monitor's reference - the step alone in a fresh process - is that value.
+* `direct_publishes_same_cycle`        : the run of a Direct client (capture ranked before the source), for EVERY
+                                         script: the engine cycles are the script's cycles and the publications are
+                                         the effective key changes of the script, each IN the cycle of the change.
+* `deferred_publishes_next_cycle`      : the run of a deferred client (source ranked first), for EVERY script - also
+                                         with changes in consecutive cycles: the same publications, each exactly
+                                         `MIN_TD` after the change; `deferred_never_same_cycle`.
 * `modeless_key_leaks_mode`            : with ONE find-or-create helper keyed on (path, offset) (the seeded shape) the
                                          second of two builds on one path shows the FIRST builder's mode (witness);
                                          `modeless_first_step_unaffected`: the first step of a process is still right
@@ -369,6 +376,45 @@ theorem svc_history_prefix_irrelevant (o o' : Offsets) (before items : List Item
   rw [runItems_eq_ref o _ _ rs hw, runItems_eq_ref o' _ _ [] (by show All2 _ [] []; exact .nil)]
   rfl
 
+/-! ## what the mode means: the timing of a run (spec: `changesFrom`, `pubOf`) -/
+
+/-- **A Direct transport (capture ranked before the source) publishes every key change in the cycle of the change**:
+    for EVERY script the engine cycles are exactly the script's cycles and the published key sets are the effective
+    changes of the script, each at the time of its cycle: the previous key removed, the new key added. -/
+theorem direct_publishes_same_cycle (script : List (Option Nat)) (h : script ≠ []) :
+    run true true script = ⟨(List.range script.length).map (MIN_ST + ·), (changesFrom none 0 script).map (pubOf 0)⟩ := by
+  have hn : 0 < script.length := List.length_pos_iff.mpr h
+  have hl := direct_loop script (endTime script) (script.length - 1) MIN_ST 0 (endTime script) none 0 0 0 none [] []
+    (by omega) (by simp [endTime, MIN_ST, MIN_TD]; omega) (by simp [endTime, MIN_ST, MIN_TD]; omega) rfl (by simp [MIN_ST])
+    (by simp [MIN_ST]) (by simp [MIN_ST])
+  have h0 : ({ sScript := MIN_ST } : RS) = dState MIN_ST 0 none 0 0 0 none [] [] := rfl
+  unfold run
+  rw [h0]
+  simp only [hl.1, hl.2, List.nil_append, List.drop_zero]
+  have hlen : script.length - 1 + 1 = script.length := by omega
+  rw [hlen]
+
+
+/-- **A deferred transport whose source is ranked before the capture node publishes every key change exactly one
+    cycle after the change** - for EVERY script, also with changes in consecutive cycles: the published key sets are
+    the effective changes of the script, each at the time of its cycle plus `MIN_TD`; never in the cycle of the change. -/
+theorem deferred_publishes_next_cycle (script : List (Option Nat)) (h : script ≠ []) :
+    (run false false script).pubs = (changesFrom none 0 script).map (pubOf 1) := by
+  have hn : 0 < script.length := List.length_pos_iff.mpr h
+  have hl := deferred_loop script (endTime script) (script.length - 1) MIN_ST 0 (endTime script) none none [] 0 0 0 none [] []
+    (by omega) (by simp [endTime, MIN_ST, MIN_TD]; omega) (by simp [endTime, MIN_ST, MIN_TD]; omega) rfl (by simp [MIN_ST])
+    (by simp [MIN_ST]) (.idle rfl rfl (by simp [MIN_ST]))
+  have h0 : ({ sScript := MIN_ST } : RS) = fState MIN_ST 0 none none [] 0 0 0 none [] [] := rfl
+  unfold run
+  rw [h0]
+  simp only [hl, handPub, List.nil_append, List.drop_zero]
+
+/-- every publication of a deferred client (source ranked first) is strictly later than the change it publishes -/
+theorem deferred_never_same_cycle (script : List (Option Nat)) (h : script ≠ []) :
+    (run false false script).pubs.map (·.time) = (changesFrom none 0 script).map (fun c => MIN_ST + c.1 + 1) := by
+  rw [deferred_publishes_next_cycle script h, List.map_map]
+  rfl
+
 /-! ## the variant: the mode left out of the key -/
 
 def leakPath : Path := "svc://x"
@@ -446,6 +492,12 @@ example : run false true [some 1, some 2, some 3] = ⟨[1, 2, 3, 4, 5, 6], [⟨4
   decide
 /-- as coded: a Direct hand-off with the source ranked first asks for a cycle the scan has already passed -/
 example : run true false [some 1, none, some 2] = ⟨[1, 2, 3], []⟩ := by decide
+
+/-- the spec on a script with consecutive changes, a re-set of the same key and an idle cycle -/
+example : (changesFrom none 0 [some 1, some 2, some 2, none, some 1]).map (pubOf 1) =
+    [⟨2, [], [1], [1]⟩, ⟨3, [1], [2], [2]⟩, ⟨6, [2], [1], [1]⟩] := by decide
+example : run true true [some 1, some 2, some 2, none, some 1] =
+    ⟨[1, 2, 3, 4, 5], [⟨1, [], [1], [1]⟩, ⟨2, [1], [2], [2]⟩, ⟨5, [2], [1], [1]⟩]⟩ := direct_publishes_same_cycle _ (by decide)
 
 /-- a reachable state with two capture contexts for one path: the hypothesis-free lookup theorem applied to it -/
 example : (({} : Proc).runSteps off0 [.build leakDirect, .build leakDeferred]).1.capCtx =
